@@ -142,6 +142,23 @@ def r_unsampled(p):
     return False, f'{p["program"]} rejects'
 
 
+def r_unreached(p):
+    """C02 clause 3: a sequence whose item i violates (in MR) is accepted under the draw r = i
+    although the check samples sequences randomly."""
+    from . import refsem
+    hint, conf, node, factory = _setup(p)
+    obj = factory()
+    import collections.abc as cabc
+    its = refsem._items(obj)
+    i = p['draw']
+    if not isinstance(obj, cabc.Sequence) or not (0 <= i < len(its)) or not refsem.must_reject(its[i], node.kids[0]):
+        return False, 'reified object is not a sequence whose item r is in MR (spurious model)'
+    verdict, detail = run_program(p['program'], factory, hint, conf, p['draw'])
+    if verdict in ('accept', 'error'):
+        return True, f'{p["program"]} -> {verdict} {detail or ""} although item {i} of {obj!r} violates and the draw is {i}'
+    return False, f'{p["program"]} rejects'
+
+
 def r_side(p):
     """A non-violation exception escapes an entry point."""
     hint, conf, node, factory = _setup(p)
@@ -192,8 +209,8 @@ def _snapshot(obj):
     import itertools
     import types
     from . import userclasses as uc
-    if isinstance(obj, uc.UIterator):
-        return ('UIterator', obj._k)
+    if isinstance(obj, (uc.UIterator, uc.USizedIterator)):
+        return (type(obj).__name__, obj._k)
     if isinstance(obj, types.GeneratorType):
         return ('generator', obj.gi_frame is not None and obj.gi_frame.f_lasti)
     if type(obj) is type(iter([])):
@@ -234,12 +251,19 @@ def r_vale_disagree(p):
     return False, f'agree ({want})'
 
 
+def r_c04(p):
+    from . import c04
+    return c04.replay_c04(p)
+
+
 REPLAYERS = {
+    'c04': r_c04,
     'vale_disagree': r_vale_disagree,
     'rewrite_disagree': r_rewrite_disagree,
     'false_alarm': r_false_alarm,
     'missed': r_missed,
     'unsampled': r_unsampled,
+    'unreached': r_unreached,
     'side': r_side,
     'disagree': r_disagree,
     'cost': r_cost,
